@@ -2,7 +2,7 @@
 """Run every quick check against each behaviour-preserving refactoring patch: exit codes must not be 1 (no false alarm);
 exit 2 (construct outside the vocabulary) is recorded."""
 import concurrent.futures as cf, glob, json, os, shutil, subprocess, sys, tempfile
-SRC = sys.argv[1] if len(sys.argv) > 1 else "/tmp/ref/out"
+SRC = sys.argv[1] if len(sys.argv) > 1 else "/verif/refactors"
 PROPS = ["C%02d" % i for i in range(1, 21)]
 
 
@@ -30,7 +30,7 @@ def one(cand):
         shutil.rmtree(scr, ignore_errors=True)
 
 
-cands = sorted(glob.glob(os.path.join(SRC, "R*", "p*")))
+cands = sorted(d for d in glob.glob(os.path.join(SRC, "R*", "p*")) + glob.glob(os.path.join(SRC, "R*_p*")) if os.path.isdir(d))
 out = {}
 with cf.ThreadPoolExecutor(max_workers=8) as ex:
     for cand, r in ex.map(one, cands):
@@ -40,7 +40,7 @@ with cf.ThreadPoolExecutor(max_workers=8) as ex:
         for k, v in nz.items():
             for l in v["lines"]:
                 print("     ", k, l[:260])
-json.dump(out, open("/tmp/refactor_matrix.json", "w"), indent=1)
+json.dump({k.replace(SRC + "/", ""): v for k, v in out.items()}, open(os.path.join(SRC, "matrix.json") if SRC.startswith("/verif") else "/tmp/refactor_matrix.json", "w"), indent=1, sort_keys=True)
 fa = sum(1 for r in out.values() for v in r.get("nonzero", {}).values() if v["exit"] == 1)
 un = sum(1 for r in out.values() for v in r.get("nonzero", {}).values() if v["exit"] not in (0, 1))
 print(f"patches={len(out)} false_alarms(exit1)={fa} analysis_errors(exit2)={un}")
